@@ -64,6 +64,9 @@ pub struct Source {
     pub delivered: Vec<H32>,
     /// Number of faults (rejects) injected so far.
     pub faults: usize,
+    /// When set, the reply shape for an initial request is a function of the request contents
+    /// only (the same request always gets the same shape), chosen from this list.
+    pub plan_by_request: Option<Vec<ReplyPlan>>,
 }
 
 fn hash_arr(h: &ic_btc_types::BlockHash) -> H32 {
@@ -134,7 +137,16 @@ impl Source {
                 self.pending = None;
                 let anchor = hash_arr(&init.anchor);
                 let processed: Vec<H32> = init.processed_block_hashes.iter().map(hash_arr).collect();
-                let plan = self.plan.pop_front().unwrap_or(ReplyPlan::Complete { max_blocks: 2, announce: 2 });
+                let plan = match &self.plan_by_request {
+                    Some(plans) if !plans.is_empty() => {
+                        let mut key: Vec<u8> = anchor.to_vec();
+                        for p in &processed {
+                            key.extend(p);
+                        }
+                        plans[(crate::engine::fnv(&key) % plans.len() as u64) as usize].clone()
+                    }
+                    _ => self.plan.pop_front().unwrap_or(ReplyPlan::Complete { max_blocks: 2, announce: 2 }),
+                };
                 let succ: Vec<SrcBlock> = self.successors(&anchor, &processed).into_iter().cloned().collect();
                 let (reply, kind, split) = match plan {
                     ReplyPlan::Reject => {
